@@ -74,4 +74,9 @@ TEXT = {
         "level": "After arbitrary prior activity on the pool zoo, routed swaps over 1..4 distinct pools of mixed types are executed on one branch and composed from single-hop messages on a twin branch (all balances must agree), estimates are compared with executions, and limits are probed on both sides of the estimate; what the sender pays or receives is measured on balances, taker fee included.",
         "note": "Trusted: the chain driver's transaction semantics (cache context + recover) for 'fails as a whole'; senders on the reduced-fee whitelist are excluded from estimate comparisons (the query knows no sender); paths that repeat a denom are excluded from balance-delta limit probes.",
     },
+    "C09": {
+        "technique": "runtime monitor: per-epoch step oracle (expected payments computed in big.Int from the pre-epoch state observed through queries) + gauge-book conservation checks around real epoch blocks",
+        "level": "Generated histories of locks, reward-receiver changes, gauges, top-ups and real epoch blocks; before every distribution epoch the expected floor pro-rata payment per receiver (minimum-value and no-route filters applied) is computed from the observed gauges and qualifying locks and compared with the balance deltas after the real block, together with gauge counters, finish schedule, deposited vs distributed and the module balance.",
+        "note": "Trusted: the lockup and incentives queries for the pre-epoch snapshot (qualifying locks = locks longer than the gauge duration, unlocking ones included, as the lockup query reports). NoLock/group gauges are outside this check. Known finding: single-denom remainders <= 100 units are never paid.",
+    },
 }
